@@ -205,6 +205,7 @@ type Sim struct {
 	invs     []invariant
 	posts    []func() *Violation
 	idRng    *rand.Rand
+	portTable map[string]*portEntry
 	endSim   time.Duration
 
 	locks    map[uintptr]*lockInfo
